@@ -107,10 +107,14 @@ def cfgs(prop, tier):
                   "CallKinds": ALLK, "Targets": '{"a", "b", "n", "p"}',
                   "Values": "{0, 1, 2}", "FailKinds": '{"err"}', "MaxFailPos": "1",
                   "InitProgs": '{"stop", "revert"}', "TopCreates": "TRUE", "MaxTop": "2"}
+        # key registration and journal instructions between the transfers: the balance entries hang on the same per-account tree
+        keys = dict(common, Ops='{"REGKEY", "JV", "SSTORE", "CALL", "STOP"}', CallKinds='{"CALL", "DELEGATECALL"}', Targets='{"a", "b"}', Values="{0, 1}",
+                    Slots="{0, 1}", SVals="{1}", MaxFailPos="0", TopCreates="FALSE", MaxTop="1", MaxInstr="3", MaxNodes="3")
         return dict(
             mc=[],
-            scn=[dict(common, MaxInstr="2", MaxNodes="3")] if q else
-                [dict(common, MaxInstr="2", MaxNodes="3"), dict(common, MaxInstr="3", MaxNodes="3", MaxTop="1", MaxFailPos="0", Targets='{"a", "b", "n"}', _forks="London")],
+            scn=[dict(common, MaxInstr="2", MaxNodes="3"), keys] if q else
+                [dict(common, MaxInstr="2", MaxNodes="3"), dict(common, MaxInstr="3", MaxNodes="3", MaxTop="1", MaxFailPos="0", Targets='{"a", "b", "n"}', _forks="London"),
+                 dict(keys, MaxInstr="4", MaxTop="2")],
             forks=["London"] if q else ["Istanbul", "London", "Cancun"])   # CREATE2 exists from Constantinople on
     raise InfraError("no frame config for " + prop)
 
